@@ -14,6 +14,7 @@ namespace worlds
     bool force_surface = false;
     bool random_models = false;   // add random grains / composition models (C15, C16)
     int variant = 0;              // 0: standard; 1: different constants and geometry (a "second file")
+    bool custom_cs = false; P2 cs0 = {{0,0}}, cs1 = {{1,0}};   // cross section end points in lattice units
     double shift = 0;             // added to every x / longitude in the file (lattice units), e.g. 178 moves a spherical world across the dateline
   };
 
@@ -74,7 +75,8 @@ namespace worlds
                 ",\"grains models\":[" + uniform_grains("[1]", 1, 55) + "]"
                 ",\"velocity models\":[{\"model\":\"uniform raw\",\"velocity\":[0.001,0.002,0.003]}]}");
     std::string m = coord(o.spherical);
-    if (o.cross_section) m += ",\"cross section\":[" + pt({(-4.5+o.shift)*s, -3.5*s}) + "," + pt({(3.5+o.shift)*s, 2.5*s}) + "]";
+    if (o.cross_section && o.custom_cs) m += ",\"cross section\":[" + pt({o.cs0[0]*s, o.cs0[1]*s}) + "," + pt({o.cs1[0]*s, o.cs1[1]*s}) + "]";
+    else if (o.cross_section) m += ",\"cross section\":[" + pt({(-4.5+o.shift)*s, -3.5*s}) + "," + pt({(3.5+o.shift)*s, 2.5*s}) + "]";
     if (o.force_surface) m += ",\"force surface temperature\":true,\"surface temperature\":273.5";
     if (o.variant == 1) m += ",\"potential mantle temperature\":1700,\"thermal expansion coefficient\":2e-5,\"specific heat\":1000,\"gravity model\":{\"model\":\"uniform\",\"magnitude\":10}";
     return world(m, f);
